@@ -2,6 +2,8 @@
 // Use of this source code is governed by an MIT
 // licence that can be found in the LICENCE file.
 
+use std::sync::Arc;
+
 use snafu::ResultExt;
 
 use crate::eval::error::AssertArgsFailed;
@@ -32,6 +34,20 @@ pub fn print(this: Option<SourcedValue>, args: Vec<SourcedValue>)
 }
 
 fn render(v: &SourcedValue) -> Result<String> {
+    render_next(v, &mut vec![])
+}
+
+// `render_next` renders `v`, where `ancestors` identifies the containers that
+// are currently being rendered, so that a container that (directly or
+// indirectly) contains itself is reported instead of being descended into
+// forever.
+fn render_next(v: &SourcedValue, ancestors: &mut Vec<usize>) -> Result<String> {
+    let new_cycle_err = || {
+        Err(Error::BuiltinFuncErr{
+            msg: "can't render a value that contains itself".to_string(),
+        })
+    };
+
     let mut s = String::new();
 
     match v.v.clone() {
@@ -60,23 +76,39 @@ fn render(v: &SourcedValue) -> Result<String> {
         },
 
         Value::List(items) => {
+            let id = Arc::as_ptr(&items) as usize;
+            if ancestors.contains(&id) {
+                return new_cycle_err();
+            }
+            ancestors.push(id);
+
             s += "[\n";
             for item in &lock_deref!(items) {
-                let rendered_item = render(item)?;
+                let rendered_item = render_next(item, ancestors)?;
                 let indented = rendered_item.replace('\n', "\n    ");
                 s += &format!("    {indented},\n");
             }
             s += "]";
+
+            ancestors.pop();
         },
 
         Value::Object(props) => {
+            let id = Arc::as_ptr(&props) as usize;
+            if ancestors.contains(&id) {
+                return new_cycle_err();
+            }
+            ancestors.push(id);
+
             s += "{\n";
             for (name, prop) in &lock_deref!(props) {
-                let rendered_prop = render(prop)?;
+                let rendered_prop = render_next(prop, ancestors)?;
                 let indented = rendered_prop.replace('\n', "\n    ");
                 s += &format!("    \"{name}\": {indented},\n");
             }
             s += "}";
+
+            ancestors.pop();
         },
 
         Value::BuiltinFunc{name, ..} => {
